@@ -266,7 +266,17 @@ func isHelper(f *ssa.Function) bool {
 	case "main", "init":
 		return false
 	}
-	return !refFuncs[strings.TrimPrefix(f.String(), "")]
+	if foldedRefFuncs[f.String()] {
+		return true
+	}
+	return !refFuncs[f.String()]
+}
+
+// foldedRefFuncs: functions of the reference tree which the rules prefer to
+// see folded into their callers as well, so that the tree looks the same
+// whether such a helper exists, is split in two or is written out in place.
+var foldedRefFuncs = map[string]bool{
+	"(*" + ModPath + "/lib/opshell.Shell).resetSilenceTimer": true, /* C19 reasons about the time store and the timer reset at the places which need them */
 }
 
 // flatten folds helpers into their callers and hides the helpers which are no
@@ -277,6 +287,11 @@ func (p *Prog) flatten() {
 		if nil == f.Parent() {
 			tops = append(tops, f)
 		}
+	}
+	/* Calls which never return end their block, so that "if err != nil {
+	log.Fatalf(...) }" does not fall through in the flow graph. */
+	for _, f := range tops {
+		ssa.CutNoReturn(f, func(c *ssa.Call) bool { return isNoReturn(c) })
 	}
 	p.Flat = ssa.FlattenAll(tops, isHelper)
 	/* Which helpers are still referenced from non-helper code? */
